@@ -445,6 +445,11 @@ def run(spec):
                 ra = {'_multi_update': [1, 0]}
             ra_before = copy.deepcopy(ra)
 
+            kupd = ['set', 'merge'][len(spec['batch']) % 2]
+            kvariant = (len(spec['batch']) // 2) % 3
+            kpair = [({'k': 1, 'x': 5}, {'k': 2}), ({'k': 1}, {'k': 2, 'x': 5}), ({'x': 1}, {'y': 2})][kvariant]
+            kexp = kpair[1] if kupd == 'set' else dict({'a': 1}, **dict(kpair[0], **kpair[1]))
+
             class Batch(Process):
                 def ports_schema(self):
                     sch = copy.deepcopy(schema)
@@ -458,12 +463,17 @@ def run(spec):
                     # plain dictionary (merged), the other names its own updater (set) - applied in port order
                     sch['ma'] = {'_default': {'a': 1}, '_updater': 'merge'}
                     sch['mb'] = {'_default': {'a': 1}, '_updater': 'merge'}
+                    # a dictionary-valued variable (updater set or merge) that receives two plain dictionaries
+                    # through two ports: two updates, applied one after the other
+                    sch['ka'] = {'_default': {'a': 1}, '_updater': kupd}
+                    sch['kb'] = {'_default': {'a': 1}, '_updater': kupd}
                     return sch
 
                 def next_update(self, timestep, states):
                     if self.parameters.get('done'):
                         return {}
-                    out = dict(update, ra=ra, rb=rb, rd={}, ma={'y': 20}, mb={'_updater': 'set', '_value': {'x': 10}})
+                    out = dict(update, ra=ra, rb=rb, rd={}, ma={'y': 20}, mb={'_updater': 'set', '_value': {'x': 10}},
+                               ka=copy.deepcopy(kpair[0]), kb=copy.deepcopy(kpair[1]))
                     if third:
                         out['rc'] = {'_updater': 'set', '_value': 100}
                     return out
@@ -471,6 +481,7 @@ def run(spec):
             topo = {k: (k,) for k in schema}
             topo['ra'] = topo['rb'] = ('rootv',)
             topo['rd'] = ('rootd',)
+            topo['ka'] = topo['kb'] = ('rootk',)
             mfirst = len(spec['batch']) % 4 < 2
             for port in (('ma', 'mb') if mfirst else ('mb', 'ma')):
                 topo[port] = ('rootm',)
@@ -494,7 +505,15 @@ def run(spec):
                     lambda: ('dictionary-valued variable {"a": 1} (updater merge) with the updates {"y": 20} and {"_updater": "set", '
                              '"_value": {"x": 10}} in one batch (%s first): holds %r, expected %r' % (
                                  'merge' if mfirst else 'set', after['rootm'], mexp)))
-            after = {k: v for k, v in after.items() if k not in ('rootv', 'rootd', 'rootm')}
+            # Known finding F8: on their way two dictionaries for one node are merged key by key (the repository's own
+            # test of inverse_topology expects that form); a variable that holds a dictionary gets them apart again
+            # only as far as the merged form tells - with the set updater a key that only the second update carries,
+            # or disjoint keys, end up in one update
+            V.check('engine_value', after['rootk'] == kexp,
+                    lambda: ('dictionary-valued variable {"a": 1} (updater %s) with the updates %r and %r through two ports in one batch: '
+                             'holds %r, applied one after the other it would hold %r' % (kupd, kpair[0], kpair[1], after['rootk'], kexp)),
+                    mechanism='dict-updates-merged-key-by-key' if (kupd == 'set' and kvariant in (1, 2)) else None)
+            after = {k: v for k, v in after.items() if k not in ('rootv', 'rootd', 'rootm', 'rootk')}
         for p, var in var_of.items():
             got = val(after, p)
             exp = model_state[p]
